@@ -4,6 +4,7 @@ from __future__ import annotations
 import asyncio
 import gzip
 import io
+import os
 import logging
 import zlib
 
@@ -205,6 +206,21 @@ def run_writer_sequence(case: dict) -> dict:
         if case.get("compress"):
             w.enable_compression(case["compress"])
 
+        def as_buffer(data: bytes):
+            """The same bytes in one of the buffer types the writer documents / asserts as accepted."""
+            bt = case.get("buftype", "bytes")
+            if bt == "bytearray":
+                return bytearray(data)
+            if bt == "memoryview":
+                return memoryview(data)
+            if bt == "memoryview16" and len(data) % 2 == 0 and data:
+                import array
+
+                a = array.array("H")
+                a.frombytes(data)
+                return memoryview(a)  # 2-byte items: len() is half the byte count
+            return data
+
         async def go():
             await w.write_headers("HTTP/1.1 200 OK", hdrs)
             ended = False
@@ -218,13 +234,13 @@ def run_writer_sequence(case: dict) -> dict:
                 if op[0] == "write":
                     data = bytes((i * 7 + op[2]) & 0xFF for i in range(op[1])) if op[1] < 5000 else (bytes(range(256)) * (op[1] // 256 + 1))[:op[1]]
                     written.extend(data)
-                    await w.write(data)
+                    await w.write(as_buffer(data))
                 elif op[0] == "send_headers":
                     w.send_headers()
                 elif op[0] == "eof":
                     data = bytes((i * 3 + 1) & 0xFF for i in range(op[1]))
                     written.extend(data)
-                    await w.write_eof(data)
+                    await w.write_eof(as_buffer(data))
                 elif op[0] == "set_eof":
                     w.set_eof()
                 ended = ended or ended_now
@@ -283,11 +299,12 @@ def writer_cases(draw):
     op = st.one_of(st.tuples(st.just("write"), size, st.integers(0, 9)), st.tuples(st.just("write"), size, st.integers(0, 9)), st.just(("send_headers",)))
     ops = draw(st.lists(op, max_size=6))
     end = draw(st.sampled_from(["eof", "eof", "set_eof"]))
-    ops.append(("eof", draw(st.sampled_from([0, 0, 3, 2048, 70000]))) if end == "eof" else ("set_eof",))
+    ops.append(("eof", draw(st.sampled_from([0, 0, 3, 6, 2048, 70000]))) if end == "eof" else ("set_eof",))
     if draw(st.booleans()):
         ops.append(draw(st.sampled_from([("eof", 0), ("set_eof",)])))  # idempotent second end
     mode = draw(st.sampled_from(["chunked", "length", "none"]))
-    case = {"ops": [list(o) for o in ops], "mode": mode, "compress": draw(st.sampled_from([None, None, "deflate", "gzip"]))}
+    case = {"ops": [list(o) for o in ops], "mode": mode, "compress": draw(st.sampled_from([None, None, "deflate", "gzip"])),
+            "buftype": draw(st.sampled_from(["bytes", "bytes", "bytearray", "memoryview", "memoryview16"]))}
     if mode == "length":
         total = sum(o[1] for o in ops if o[0] in ("write", "eof"))
         case["length"] = max(0, total + draw(st.sampled_from([0, 0, -1, -5, -2048, 1])))
@@ -298,7 +315,7 @@ def body_writer(rec: Rec, case: dict) -> None:
     r = run_writer_sequence(case)
     sizes = [o[1] for o in case["ops"] if o[0] in ("write", "eof")]
     nt = len(sizes) >= 2 and any(s in (0, 2047, 2048, 2049, 65535, 65536, 65537) for s in sizes)
-    rec.case(case, nt, ["frame", "mode:" + case["mode"], "compress:" + str(case.get("compress"))] + (["skipped"] if r.get("skipped") else []))
+    rec.case(case, nt, ["frame", "mode:" + case["mode"], "compress:" + str(case.get("compress")), "buf:" + case.get("buftype", "bytes")] + (["skipped"] if r.get("skipped") else []))
 
 
 def unit_writer(rec: Rec, n: int, offset: int) -> None:
@@ -334,10 +351,13 @@ def run_payload_case(case: dict) -> None:
     from aiohttp import payload as pl
 
     loop = new_loop()
+    tmpfiles: list = []
+    opened: list = []
     try:
         async def go():
             kind = case["kind"]
             n = case["size"]
+            expect = None
             data = bytes((i * 11 + 5) & 0xFF for i in range(n))
             text = ("zażółć ✓ " * (n // 8 + 1))[:n]
             if kind == "bytes":
@@ -353,6 +373,31 @@ def run_payload_case(case: dict) -> None:
                 data = data[min(3, n):]
             elif kind == "stringio":
                 p = pl.StringIOPayload(io.StringIO(text))
+            elif kind in ("file_rb", "file_rb_offset", "file_text", "file_text_offset"):
+                # real files (what `data=open(...)` gives the client): binary and text mode, optionally read a bit before
+                import tempfile
+
+                tf = tempfile.NamedTemporaryFile(prefix="c04_", delete=False)
+                tmpfiles.append(tf.name)
+                if kind.startswith("file_rb"):
+                    tf.write(data)
+                    tf.close()
+                    f2 = open(tf.name, "rb")
+                    if kind.endswith("offset"):
+                        f2.read(min(3, n))
+                        data = data[min(3, n):]
+                    p = pl.get_payload(f2)
+                    expect = data
+                else:
+                    tf.write(text.encode("utf-8"))
+                    tf.close()
+                    f2 = open(tf.name, "r", encoding="utf-8")
+                    if kind.endswith("offset"):
+                        f2.read(min(3, n))
+                        text = text[min(3, n):]
+                    p = pl.get_payload(f2)
+                    expect = text.encode("utf-8")
+                opened.append(f2)
             elif kind == "json":
                 p = pl.JsonPayload({"k": text})
             elif kind == "multipart":
@@ -374,11 +419,29 @@ def run_payload_case(case: dict) -> None:
                 p = fd()
             else:
                 raise ValueError(kind)
-            w = CapWriter()
-            size = p.size
-            await p.write(w)
-            if size is not None and size != len(w.data):
-                raise Violation(f"payload-size/{kind}", f"{type(p).__name__}.size == {size} but write() emitted {len(w.data)} bytes (case {case})")
+            if kind == "bytes":
+                expect = data
+            elif kind in ("bytesio", "bytesio_offset"):
+                expect = data
+            elif kind in ("str", "stringio"):
+                expect = text.encode("utf-8")
+            first = None
+            # a payload is written again when the request is re-sent (307/308 redirect, retry after a dropped connection,
+            # digest-auth middleware): every send must carry the declared size and the same bytes
+            for send in range(case.get("sends", 1)):
+                w = CapWriter()
+                size = p.size
+                await p.write(w)
+                if size is not None and size != len(w.data):
+                    raise Violation(f"payload-size/{kind}" + ("/resend" if send else ""),
+                                    f"{type(p).__name__}.size == {size} but write() #{send + 1} emitted {len(w.data)} bytes (case {case})")
+                if expect is not None and bytes(w.data) != expect:
+                    raise Violation(f"payload-content/{kind}" + ("/resend" if send else ""),
+                                    f"{type(p).__name__}.write() #{send + 1} emitted {len(w.data)} bytes that differ from the {len(expect)} supplied (case {case})")
+                if first is None:
+                    first = bytes(w.data)
+                elif bytes(w.data) != first:
+                    raise Violation(f"payload-resend-differs/{kind}", f"{type(p).__name__}.write() #{send + 1} emitted {len(w.data)} bytes, the first send {len(first)} (case {case})")
             if kind in ("multipart", "formdata") and isinstance(p, aiohttp.MultipartWriter):
                 # structure: parts split on the boundary, each with a head
                 b = ("--" + p.boundary).encode()
@@ -391,13 +454,21 @@ def run_payload_case(case: dict) -> None:
 
         loop.drive(go())
     finally:
+        for f in opened:
+            f.close()
+        for name in tmpfiles:
+            try:
+                os.unlink(name)
+            except OSError:
+                pass
         loop.shutdown()
 
 
 @st.composite
 def payload_cases(draw):
-    kind = draw(st.sampled_from(["bytes", "str", "bytesio", "bytesio_offset", "stringio", "json", "multipart", "multipart", "formdata", "formdata"]))
-    case = {"kind": kind, "size": draw(st.sampled_from([0, 1, 10, 2048, 70000]))}
+    kind = draw(st.sampled_from(["bytes", "str", "bytesio", "bytesio_offset", "stringio", "json", "multipart", "multipart", "formdata", "formdata",
+                                 "file_rb", "file_rb_offset", "file_text", "file_text_offset"]))
+    case = {"kind": kind, "size": draw(st.sampled_from([0, 1, 10, 2048, 70000])), "sends": draw(st.sampled_from([1, 2, 3]))}
     if kind == "multipart":
         case["nested"] = draw(st.booleans())
         case["part_headers"] = draw(st.lists(st.tuples(st.sampled_from(["X-P", "Content-Description"]), st.sampled_from(["v", "zażółć", "a b", "✓"])), max_size=2))
@@ -412,9 +483,6 @@ def body_payload(rec: Rec, case: dict) -> None:
     try:
         run_payload_case(case)
     except AssertionError as e:
-        if case["kind"] == "formdata" and case.get("quote_fields", True) and not case.get("field", "f").isascii():
-            rec.case(case, True, ["payload", "formdata-nonascii-name-assert"])
-            return
         raise Violation(hyp.exc_key(e, "payload-raised"), repr(e)[:200])
     rec.case(case, case["size"] in (0, 2048, 70000), ["payload", "kind:" + case["kind"]])
 
